@@ -567,6 +567,56 @@ def seq_segments(e):
     return None
 
 
+def three_way(ctx, func, stmts, a, b):
+    """{'eq': stmts, 'lt': stmts, 'gt': stmts} for a block that is a
+    three-way comparison of the expressions (texts) `a` and `b` -- in any
+    branch order, as an if/elif/else chain, as `if ..: ..; continue`
+    sequences or a mixture (what follows a branch that ends in `continue`
+    is its else part; a final branch without a test is the remaining
+    relation).  'lt' means a < b.  None when the block is not of that shape."""
+    a, b = a.replace(" ", ""), b.replace(" ", "")
+
+    def rel_of(test):
+        p = cmp_parts(ctx, func, test) if ctx is not None else cmp_raw(test)
+        if p is None:
+            return None
+        op, l, r = p[0], p[1].replace(" ", ""), p[2].replace(" ", "")
+        if op == "==" and {l, r} == {a, b}:
+            return "eq"
+        if op == "<" and (l, r) == (a, b):
+            return "lt"
+        if op == "<" and (l, r) == (b, a):
+            return "gt"
+        return None
+    out = {}
+
+    def split(stmts):
+        stmts = real_stmts(stmts)
+        if not stmts:
+            return True
+        st = stmts[0]
+        r = rel_of(st.test) if isinstance(st, ast.If) else None
+        if r is None:
+            rest = {"eq", "lt", "gt"} - set(out)
+            if len(rest) != 1:
+                return False
+            out[rest.pop()] = stmts
+            return True
+        if r in out:
+            return False
+        out[r] = st.body
+        if st.orelse:
+            return len(stmts) == 1 and split(st.orelse)
+        if len(stmts) == 1:
+            return True
+        if isinstance(real_stmts(st.body)[-1], ast.Continue):
+            return split(stmts[1:])
+        return False
+    if not split(stmts) or set(out) != {"eq", "lt", "gt"}:
+        return None
+    return out
+
+
 def T(text_, pol=True):
     """Canonical truth atom."""
     return ("truth", text_.replace(" ", ""), pol)
